@@ -36,6 +36,31 @@ CHECKS = {
         design="7 (C08), 4 (R1)",
         technique="deterministic simulation: scripted head latency + cancellation, reference soft-cut interpreter with choice-function oracle",
     ),
+    "C16": dict(
+        text="Seeded exploration of CLP(FD) programs x constraint re-run / labeling orders: the store containers are replaced "
+             "by simulator-ordered ones, so the order in which constraints wake up, domains move between variables and "
+             "hidden variables are labeled is a function of the seed (identity, reverse, rotate, keyed, stable, fresh "
+             "policies). Every answer must be ground and be the projection of an assignment that brute force finds "
+             "satisfying. Exploration: propagation order is the dimension unit tests cannot reach and it can only be sampled.",
+        design="7 (C16/C17), 4 (R3), 1 (N1)",
+        technique="deterministic simulation: seeded constraint wake-up/labeling order (container seam) + yields, brute-force soundness oracle",
+    ),
+    "C17": dict(
+        text="Same runs as C16, completeness clause: the multiset of query projections returned must equal the brute-force "
+             "multiset (every solution exactly once per disjunct), under every simulated propagation/labeling order. "
+             "Not covered: FD variables inside compound query terms (compounds are not generated; C20 is not applicable here).",
+        design="7 (C16/C17), 4 (R3), 1 (N1)",
+        technique="deterministic simulation: seeded constraint wake-up/labeling order (container seam) + yields, brute-force completeness/multiplicity oracle",
+    ),
+    "C19": dict(
+        text="Seeded exploration of plusz/timesz conjunctions in every posting order under simulated wake-up orders of the "
+             "pending constraints: final operand values must satisfy integer arithmetic (all ground -> equation holds; two "
+             "ground -> third bound unless every integer works), a failing program must have no solution in a brute-force "
+             "window, never a panic. The order dependence is N1 (several pending constraints woken by one binding); the rest "
+             "of the property is input-driven and is sampled by the same generator.",
+        design="7 (C19), 1 (N1)",
+        technique="deterministic simulation: seeded wake-up order of pending constraints + posting-order permutations, integer-arithmetic oracle",
+    ),
     "C06": dict(
         text="Seeded exploration of (search program x leaf timing script x iteration-order policy x yield sites): on finite "
              "trees the interleaving answer multiset must equal an independent reference interpreter and the same program "
